@@ -18,7 +18,7 @@ def run_enum(prop, tier, legs, rule, nontrivial_counter, level="model_checking",
     exes = {}
     for leg in legs:
         exe = build.build_harness(leg["name"], leg["variant"], leg["sources"], tuple(leg.get("cflags", ())),
-                                  tuple(leg.get("ld", ())))
+                                  tuple(leg.get("ld", ())), with_cli=leg.get("with_cli", False))
         exes[leg["name"]] = exe
         args = ["--tier", tier] + list(leg.get("args", []))
         if leg.get("leakcheck"):
@@ -88,7 +88,7 @@ def replay_enum(prop, path, legs):
         if extra.get("leg") and leg["name"] != extra["leg"]:
             continue
         exe = build.build_harness(leg["name"], leg["variant"], leg["sources"], tuple(leg.get("cflags", ())),
-                                  tuple(leg.get("ld", ())))
+                                  tuple(leg.get("ld", ())), with_cli=leg.get("with_cli", False))
         args = ["--tier", tier] + list(leg.get("args", []))
         if leg.get("leakcheck"):
             args.append("--leakcheck")
